@@ -281,6 +281,30 @@ func TestC07(t *testing.T) {
 			r.deliver(r.newest+2, "deliver_during_sync")
 			r.drain()
 		}},
+		{"adjacent_head_while_filling_earlier_gap", func(r *runner, rng *emit.Rand) {
+			// two pending ranges [a],[T] left by an aborted attempt; the next attempt (target T) is filling the gap
+			// in front of [a] when T+1 arrives: the last range is [T, T+1] when the loop takes T out of it
+			r.deliver(r.newest+5, "deliver_idle")
+			r.deliver(r.newest+15, "deliver_during_sync")
+			r.answerErr()
+			r.deliver(r.newest+1, "deliver_during_sync")
+			r.answer(2)
+			r.deliver(r.newest+1, "deliver_during_sync")
+			r.drain()
+		}},
+		{"prefixes_then_error", func(r *runner, rng *emit.Rand) {
+			// short prefixes are stored as they come: an error later in the same attempt loses none of them
+			r.deliver(r.newest+40, "deliver_idle")
+			r.answer(3)
+			r.answer(1)
+			r.answer(5)
+			r.answerErr()
+			r.deliver(r.newest+1, "deliver_idle")
+			r.answer(2)
+			r.answerErr()
+			r.deliver(r.newest+3, "deliver_idle")
+			r.drain()
+		}},
 		{"error_then_next_head", func(r *runner, rng *emit.Rand) {
 			r.deliver(r.newest+20, "deliver_idle")
 			r.answer(7)
